@@ -22,6 +22,8 @@ CHECKS = {
     'C12': ('symtex', 'every math kind x body template with symbolic math text (brackets/parentheses allowed), symbolic sizing delimiters, adjacent regions, escaped dollars, in 7 contexts: one math node of the right kind with the exact body', 'DESIGN.md §7 C12'),
     'C13': ('symtex', 'recorded positions of all nodes/tokens equal the offsets obtained by mirroring the serialisers (skeleton cover); char_pos_to_line on all strings over {letter, LF} up to the bound; search_regex offsets for a modelled regex family', 'DESIGN.md §7 C13'),
     'C16': ('symtex', 're-parse of the serialised text gives identical text and shape, for every parseable string up to the length bound', 'DESIGN.md §7 C16'),
+    'C17': ('symtex', 'input forms (str / chunk lists / tuples / generator / file object) give identical outcomes on free strings and skeleton documents; the same input spaces are explored in fresh interpreters under several PYTHONHASHSEED values and z3 decides that the outcome partitions are equivalent; interleaved parses and edits of two documents do not influence each other', 'DESIGN.md §6.5, §7 C17',
+            'solver-based symbolic execution (symtex) + z3 partition-equivalence queries between explorations run under different hash seeds'),
     'C18': ('symtex', 'all operation sequences up to the depth bound on free-standing and owner-attached TexArgs against a Python list of the same objects; group contents symbolic so duplicates are chosen by the solver', 'DESIGN.md §7 C18'),
     'C19': ('symtex', 'real categorize in direct mode (all code points per position) and tokenizer partition/offset assertions for all strings up to the length bound', 'DESIGN.md §7 C19'),
     'C20': ('crosshair', 'each Buffer operation is confirmed over all paths by CrossHair as one inductive step from an arbitrary API-reachable state (int sequences up to the length bound, symbolic cursor and arguments); string- and token-backed buffers run on symtex', 'DESIGN.md §4, §7 C20',
